@@ -226,14 +226,22 @@ def D3_angle_styles(repo, clause):
     obs = []
     fn = repo.fn("angle_params")
     # the membership test on a literal list and the inner chain
-    tests = [n for n in fn.own_nodes() if isinstance(n, ast.If) and isinstance(n.test, ast.Compare) and isinstance(n.test.ops[0], ast.In)
-             and isinstance(n.test.comparators[0], (ast.List, ast.Tuple, ast.Set))]
+    from .common import strip_not
+    tests = []
+    for n in fn.own_nodes():
+        if isinstance(n, ast.If):
+            tt, pol = strip_not(n.test, True)
+            if isinstance(tt, ast.Compare) and len(tt.ops) == 1 and isinstance(tt.ops[0], (ast.In, ast.NotIn)) and isinstance(tt.comparators[0], (ast.List, ast.Tuple, ast.Set)):
+                if isinstance(tt.ops[0], ast.NotIn):
+                    pol = not pol
+                tests.append((n, tt, pol))
     if len(tests) != 1:
         raise AnalysisError("D3: membership test on the literal angle list not found in angle_params")
-    t = tests[0]
-    var = ast.unparse(t.test.left)
-    lits = [const_value(e) for e in t.test.comparators[0].elts]
-    chain = [s for s in t.body if isinstance(s, ast.If)]
+    t, tt, pol = tests[0]
+    in_branch = t.body if pol else t.orelse
+    var = ast.unparse(tt.left)
+    lits = [const_value(e) for e in tt.comparators[0].elts]
+    chain = [s for s in in_branch if isinstance(s, ast.If)]
     if len(chain) != 1:
         raise AnalysisError("D3: inner if/elif chain not found")
     arms = []
@@ -246,7 +254,7 @@ def D3_angle_styles(repo, clause):
             tail = cur.orelse
             break
     # names used by the return inside this block
-    ret = [s for s in t.body if isinstance(s, ast.Return)]
+    ret = [s for s in in_branch if isinstance(s, ast.Return)]
     used = set()
     for r in ret:
         used |= {n.id for n in ast.walk(r.value) if isinstance(n, ast.Name)}
@@ -287,10 +295,14 @@ def D3_angle_styles(repo, clause):
     fmt = repo.fn("angle2lammpsdat")
     handled = {}
     for n in fmt.own_nodes():
-        e_ = eq_const(n.test) if isinstance(n, ast.If) and isinstance(n.test, ast.Compare) else None
-        if e_ is not None and e_[2] and isinstance(e_[1], str):
+        if not isinstance(n, ast.If):
+            continue
+        from .common import strip_not
+        tt_, pol_ = strip_not(n.test, True)
+        e_ = eq_const(tt_) if isinstance(tt_, ast.Compare) else None
+        if e_ is not None and isinstance(e_[1], str):
             s = e_[1]
-            for r in n.body:
+            for r in (n.body if e_[2] == pol_ else n.orelse):
                 if isinstance(r, ast.Return) and isinstance(r.value, ast.BinOp) and isinstance(r.value.op, ast.Mod) and isinstance(r.value.left, ast.Constant):
                     handled[s] = fmt_slots(r.value.left.value)
     obs.append(Ob("D3", clause, fmt, fmt.node, set(styles) == set(handled),
